@@ -15,8 +15,10 @@ _OPAQUE = (type, types.ModuleType, types.FunctionType, types.BuiltinFunctionType
            types.MethodType, types.GeneratorType)
 
 
-def deep_state(obj):
+def deep_state(obj, stop=()):
     """Canonical nested-tuple description of the object graph below `obj`.
+    Objects whose id is in `stop` are not entered (described as external):
+    a plain reference to another formula is not part of this one's state.
 
     * atoms carry their type name (True is not 1, 1.0 is not 1);
     * list / tuple: elements in order; dict: items in *insertion order*;
@@ -36,6 +38,8 @@ def deep_state(obj):
         if isinstance(x, range):
             return ('range', x.start, x.stop, x.step)
         i = id(x)
+        if i in stop:
+            return ('external', type(x).__name__)
         if i in memo:
             return ('ref', memo[i])
         memo[i] = len(memo)
@@ -61,10 +65,11 @@ def deep_state(obj):
     return go(obj)
 
 
-def mutable_parts(obj):
-    """{id: (path, container)} of every list / dict / set reachable."""
+def mutable_parts(obj, stop=()):
+    """{id: (path, container)} of every list / dict / set reachable (without
+    entering the objects whose id is in `stop`)."""
     out = {}
-    seen = set()
+    seen = set(stop)
 
     def go(x, path):
         if isinstance(x, _ATOMIC) or isinstance(x, _OPAQUE) or isinstance(x, range):
@@ -104,8 +109,8 @@ def mutable_parts(obj):
 def shared_mutables(a, b):
     """Mutable containers reachable from both `a` and `b`:
     [(path_in_a, path_in_b, container)] in a deterministic order."""
-    ma = mutable_parts(a)
-    mb = mutable_parts(b)
+    ma = mutable_parts(a, stop=(id(b),))
+    mb = mutable_parts(b, stop=(id(a),))
     both = [(ma[i][0], mb[i][0], ma[i][1]) for i in ma if i in mb]
     both.sort(key=lambda t: (t[0], t[1]))
     return both
@@ -134,19 +139,26 @@ def labels(F):
         return ['<%s>' % type(e).__name__]
 
 
+def _guard(f):
+    try:
+        return f()
+    except Exception as e:      # a state wrecked by an aliasing probe is still a (different) state
+        return ['<%s>' % type(e).__name__]
+
+
 def formula_public(F):
     """What the property names: clauses, variable count, names, header."""
-    return {'clauses': [list(c) for c in F],
-            'nvars': F.number_of_variables(),
+    return {'clauses': _guard(lambda: [list(c) if isinstance(c, (list, tuple)) else c for c in F]),
+            'nvars': _guard(F.number_of_variables),
             'names': labels(F),
-            'header': [(k, v) for k, v in F.header.items()]}
+            'header': _guard(lambda: [(k, v) for k, v in F.header.items()])}
 
 
 PUBLIC_PARTS = ('clauses', 'nvars', 'names', 'header')
 
 
-def formula_snapshot(F):
-    return formula_public(F), deep_state(F)
+def formula_snapshot(F, stop=()):
+    return formula_public(F), deep_state(F, stop)
 
 
 def diff_formula(before, after):
